@@ -126,13 +126,16 @@ func (mp *MotionProcessor) Process(rawFrame []byte) error {
 
 func (mp *MotionProcessor) processSnapshot(frame *cptvframe.Frame) {
 	if mp.StartSnapshot {
-		mp.log.Printf("making a snapshot")
 		mp.StartSnapshot = false
-		if err := mp.snapshotRecorder.StartRecording(mp.motionDetector.background, 0); err != nil {
-			mp.log.Printf("error with starting constant recorder: %v", err)
-			return
+		// a request arriving while a test recording is still open is dropped
+		if !mp.SnapshotRecording {
+			mp.log.Printf("making a snapshot")
+			if err := mp.snapshotRecorder.StartRecording(mp.motionDetector.background, 0); err != nil {
+				mp.log.Printf("error with starting constant recorder: %v", err)
+				return
+			}
+			mp.SnapshotRecording = true
 		}
-		mp.SnapshotRecording = true
 	}
 	if !mp.SnapshotRecording {
 		return
@@ -141,11 +144,11 @@ func (mp *MotionProcessor) processSnapshot(frame *cptvframe.Frame) {
 	mp.snapshotFrames++
 	if mp.snapshotFrames > 20 {
 		mp.SnapshotRecording = false
+		mp.snapshotFrames = 0
 		if err := mp.snapshotRecorder.StopRecording(); err != nil {
 			mp.log.Printf("error with stoping constant recorder: %v", err)
 			return
 		}
-		mp.snapshotFrames = 0
 	}
 }
 
